@@ -16,6 +16,8 @@ import RV.Base.Proto
                                   ` => ` the path `translate` makes of it (prefix form of `eval`'s input)
     evaln3 S O <path>          -> `unreadable`, or the `eval` answer of translate (read (n3 (build path)))
     evalf S O <path>           -> for a path `m mod X`: the answer of MulPath.eval(…, first=False) (`T|pairs`, a list); else bad-op
+    bgp same X <path>          -> `?x path ?x`, X = `*` (unbound) or a term (pre-bound): `T|pairs` as `eval`
+    bgp before|after <path>    -> `?s ?pp ?zz . ?s path ?o` / `?s path ?o . ?zz ?pp ?o` (DISTINCT): `T|set of pairs`
     api S O <path>             -> the Graph API answers for the built path (gContains / gObjects / gSubjects /
                                   gSubjectObjects / g…OfList / gValue…):
                                     S O given:  in|T or in|F
@@ -233,6 +235,20 @@ def step (g : Graph) : List String → Graph × String
       | .mul q m => (g, "T|" ++ showPairs (mulEvalF g (evalPath g q) m false s o))
       | _ => (g, "bad-op")
     | _, _, _ => (g, "bad-op")
+  | "bgp" :: "same" :: x :: ws =>
+    match optNat? x, path? (ws.length + 1) ws with
+    | some x, some (p, []) =>
+      let q := build p
+      (g, "T|" ++ showPairs (if q.isClosure then bgpSame g q x else dedupInto [] (bgpSame g q x)))
+    | _, _ => (g, "bad-op")
+  | "bgp" :: "before" :: ws =>
+    match path? (ws.length + 1) ws with
+    | some (p, []) => (g, "T|" ++ showPairs (dedupInto [] (bgpSubjBefore g (build p))))
+    | _ => (g, "bad-op")
+  | "bgp" :: "after" :: ws =>
+    match path? (ws.length + 1) ws with
+    | some (p, []) => (g, "T|" ++ showPairs (dedupInto [] (bgpObjAfter g (build p))))
+    | _ => (g, "bad-op")
   | "api" :: s :: o :: ws =>
     match optNat? s, optNat? o, path? (ws.length + 1) ws with
     | some s, some o, some (p, []) => (g, apiLine g (build p) s o)
